@@ -1,6 +1,7 @@
 import CCVerif.Model.Json
 import CCVerif.Lemmas.JsonDoc
 import CCVerif.Lemmas.JsonDocTags
+import CCVerif.Lemmas.JsonDocModelLoad
 import CCVerif.Lemmas.JsonOss
 import CCVerif.Lemmas.JsonOssLoad
 import CCVerif.Lemmas.JsonOssGraph
@@ -1023,3 +1024,42 @@ example : ∃ c, ossFromJson ⟨fun _ => 0⟩ cycleDoc = .ok c ∧ structOkB c =
     exact ⟨c, rfl, hb, h1, fun p => ⟨(h3 p).1, (h3 p).2.1⟩⟩
 
 end CCVerif.JsonOss
+
+/-! ## model documents: stability of the LOADED content (`Lemmas/JsonDocModelLoad.lean`) -/
+namespace CCVerif.JsonDoc
+open CCVerif.Json CCVerif.Core CCVerif.SDC
+
+/-- the full statement: loading is a normal form for model documents — FALSE, see
+`model_load_repeated_counterexample` (a base set with a repeated `data` element) -/
+def model_load_save_load_stable_statement : Prop :=
+  ∀ (env : Env) (d : Json) (c : Model), Model.fromJson env d = some c → ModelUpdated env c →
+    ∃ j, c.toJson = some j ∧ Model.fromJson env j = some c
+
+/-- **model_load_save_load_stable_partial**: a content loaded from a model document that satisfies
+`LoadedWF` (what `FinalizeLoadingCore` + `LoadData` establish step by step: `resetEntry_loaded`,
+`applyOne_loaded`; weaker than `Model.WF`: a base set may have a value and no texts), whose values
+re-pack (`ValsOK`, C16) and whose non-empty texts go with their key set (`Keyed`: fails only for a
+repeated `data` element) is written and loaded back EQUAL: `load (save (load d)) = load d`. -/
+theorem model_load_save_load_stable_partial (env : Env) (d : Json) (c : Model)
+    (_h : Model.fromJson env d = some c) (hw : c.LoadedWF) (hv : c.ValsOK) (hk : c.Keyed)
+    (hu : ModelUpdated env c) :
+    ∃ j, c.toJson = some j ∧ Model.fromJson env j = some c :=
+  loaded_roundtrip_core text_roundtrip_partial env c hw hv hk hu
+
+/-- the `data` array `[{5, texts ["a"]}, {5, value {7}}]` for the base set of `gapModel`'s schema:
+loaded `texts = {1 ↦ a}`, `data = {7}`; saved and loaded again: `data = {1}`. -/
+def repeatedData : Json :=
+  .arr [.obj [("entityUID", .num 5), ("wasCalculated", .bool false), ("texts", .arr [.str "a"])],
+        .obj [("entityUID", .num 5), ("wasCalculated", .bool false), ("value", .arr [.arr [.num 1, .num 7]])],
+        .obj [("entityUID", .num 424242)]]
+
+def repeatedTy : Nat → Option Ty := fun _ => some (.coll (.base "X1"))
+def repeatedView (l : List DataEntry) : List (Option (List (Int × String)) × Option Cmp) := l.map fun e => (e.texts, e.sdata.map (cmp · (.s [.e 7])))
+
+theorem model_load_repeated_counterexample :
+    (loadData gapModel.items repeatedTy repeatedData).map repeatedView = some [(some [(1, "a")], some .equal)] ∧
+    (((loadData gapModel.items repeatedTy repeatedData).bind (dataToJson gapModel.items)).bind
+        fun ds => loadData gapModel.items repeatedTy (.arr ds)).map repeatedView = some [(some [(1, "a")], some .less)] := by
+  constructor <;> first | decide | rfl | (with_unfolding_all decide)
+
+end CCVerif.JsonDoc
